@@ -351,6 +351,14 @@ func scenarioGroup(w *pool.W, scs []*Scenario, tier string, runtime bool) error 
 		} else {
 			meta["out_file"] = "conv/generated/generated.go"
 		}
+		for _, l := range sc.ConvLines {
+			if strings.HasPrefix(l, "output:raw") {
+				meta["output_raw"] = true // user code in the generated file: declarations and reachability are not goverter's
+			}
+			if strings.HasPrefix(l, "name ") {
+				meta["impl_name"] = strings.TrimSpace(strings.TrimPrefix(l, "name "))
+			}
+		}
 		meta["features"] = planFeatures(res.Plan)
 		meta["prop_val"] = sc.PropVal
 		var apiNames []string
